@@ -16,7 +16,7 @@ SPEC = {
         "setter layouts: regenerated from the C++ source on every run by the C05 translator tools/translators/layouts.py "
         "(clang AST, per-bit symbolic evaluation) and validated on every run against the real setters' bytes (correspondence)",
         "setters that branch on an integer parameter (126993 interval limit, 129029 reference stations) are read once per path "
-        "(pairs <pgn>_t / <pgn>_e); `x / constant` of a whole unsigned parameter is read as the parameter's code with a side "
+        "(pairs <pgn>_a / <pgn>_b (longest payload first)); `x / constant` of a whole unsigned parameter is read as the parameter's code with a side "
         "record of that resolution (truncating division, done by `Pair.intCode` in the driver). PGN 126464 (loop) is outside "
         "the layout language: harness' table-driven encoder only",
         "every public setter of a listed PGN - main function, overloads and the inline alias wrappers of the headers - has a "
